@@ -74,5 +74,14 @@ CHECKS["C08"] = {
     "quick": {"checks": 50, "timeout": 1200, "env": {"VERIF_C08_STEPS": 5}},
     "thorough": {"checks": 700, "timeout": 3400, "shards": 8, "env": {"VERIF_C08_STEPS": 12}},
 }
+CHECKS["C18"] = {
+    "pkg": "./props/c18",
+    "level": "exploration",
+    "technique": "stateful property-based testing (rapid) with a harness CFB generator, an MS-CFB validator as oracle, a stream-set model and a reference MSI digest",
+    "level_text": "Generated compound files (512/4096-byte sectors, with/without mini stream, streams around the 4096 cutoff, nested storages, free-sector patterns, fragmented chains, directory padding and holes, DIFAT sectors) are edited through relic's comdoc writer with drawn histories of AddFile (signature stream names and other names incl. case variants; sizes on both sides of the cutoff), replace, DeleteFile and Close+reopen. After every close a validator written from MS-CFB must find no violation (header counts, FAT/DIFAT/miniFAT chains in bounds, acyclic and disjoint, no leaked sectors, directory red-black tree correctly ordered and coloured) and every stream and storage must equal the model in name, metadata and bytes. Separately the MSI digest from the tar stream (drawn read sizes) must equal the digest from the container and a harness reference computation (with and without the extended pre-hash).",
+    "level_note": "Trusts the harness validator and generator (cross-checked against each other and against the repository's dummy.msi). The reference MSI digest follows the osslsigncode algorithm; the extended pre-hash reference is of medium confidence (same field selection as relic).",
+    "quick": {"checks": 1500, "timeout": 900, "env": {"VERIF_C18_OPS": 8}},
+    "thorough": {"checks": 30000, "timeout": 3400, "shards": 8, "env": {"VERIF_C18_OPS": 30}},
+}
 for _pid in CHECKS:
     NOT_APPLICABLE.pop(_pid, None)
